@@ -144,6 +144,7 @@ def rule_lookup(facts, rep):
 
     def run(choices):
         ev = abseval.Evaluator(facts, cp.CRATE, {"anstyle_parse::state::state_change_": cell,
+                                                  "index:anstyle_parse::state::table::STATE_CHANGES": cell,
                                                   "anstyle_parse::state::definitions::unpack": lambda a: ("unpack", a[0])})
         ev.choices = choices
         env = abseval.Env()
@@ -167,7 +168,13 @@ def rule_lookup(facts, rep):
     rep.check(not bad and len(results) >= 2, "lookup", b["path"], "current-state-only-if-zero",
               "the current state's row is consulted exactly when the Anywhere cell is 0", loc(b))
     rep.check(not bad, "lookup", b["path"], "unpack-result", "the result is unpack(change)", loc(b))
-    b2 = facts.body(cp.CRATE, "anstyle_parse::state::state_change_")
+    try:
+        b2 = facts.body(cp.CRATE, "anstyle_parse::state::state_change_")
+    except AnchorMissing:
+        # the lookup helper was renamed or written in place: the evaluation above already required every table access of
+        # state_change to be STATE_CHANGES[Anywhere | state][byte]
+        rep.ok("lookup", "anstyle_parse::state::state_change", "row-state-col-byte", "table accessed in place (decided by the evaluation of state_change)")
+        return
     rep.fn(b2["path"])
     idx = [n for n in hir.walk(b2["hir"]) if n.get("k") == "index"]
     ok = False
